@@ -171,6 +171,9 @@ func TestVerifPrograms(t *testing.T) {
 	f, err := os.OpenFile(os.Getenv("VERIF_OUT"), os.O_CREATE|os.O_WRONLY|os.O_APPEND, 0644)
 	vhMust(err)
 	defer f.Close()
+	// one empty backing store per child process: it is never written (only cache -> overlay commits happen)
+	store := leveldbstore.NewMemLevelDBStore()
+	defer store.Close()
 	for _, it := range in.Items {
 		fmt.Fprintf(f, "{\"start\":%d,\"op\":\"run\"}\n", it.Id)
 		code, err := hex.DecodeString(it.Hex)
@@ -186,7 +189,6 @@ func TestVerifPrograms(t *testing.T) {
 		r := pgRes{Id: it.Id, Op: "run", Out: "ok", Runs: reps}
 		idx := map[pgObs]int{}
 		keys := map[string]bool{}
-		store := leveldbstore.NewMemLevelDBStore()
 		for i := 0; i < reps; i++ {
 			o := pgRunOnce(store, code, it.PreExec, gas)
 			if j, ok := idx[o]; ok {
@@ -198,7 +200,6 @@ func TestVerifPrograms(t *testing.T) {
 			}
 			keys[fmt.Sprintf("%v|%s|%s|%s", o.Ok, o.Result, o.Notify, o.Writes)] = true
 		}
-		store.Close()
 		for k := range keys {
 			r.Keys = append(r.Keys, k)
 		}
